@@ -266,7 +266,15 @@ func TestPropCLI(t *testing.T) {
 				continue // an empty record is the file parsers' subject (C01), not a read
 			}
 			c.Reads = append(c.Reads, rd)
-			if _, amps, _ := classify(ms, rd); len(amps) > 0 {
+			cls, amps, _ := classify(ms, rd)
+			if cls == "mixed" {
+				if len(amps) > 0 {
+					evid.Class("cli:read_with_lone_sites_and_amplicon", 1)
+				} else {
+					evid.Class("cli:read_with_lone_sites_only", 1)
+				}
+			}
+			if len(amps) > 0 {
 				for _, a := range amps {
 					if _, st := identify(ms[a.Marker], a.FTag, a.RTag); st == idAssigned && (a.SpacerOrErrs || a.Dir == "reverse") {
 						nontrivial = true
